@@ -128,7 +128,14 @@ def keyword_from_hash(kw_hash: int, name: str, ns: str | None = None) -> Keyword
 
     with _LOCK:
         found = _INTERN.val_at(kw_hash)
-        if found:
+        if found is not None and found._name == name and found._ns == ns:
+            return found
+        # `kw_hash` is only a hint: it may have been computed by another process (cached
+        # bytecode, pickles) under a different string hash seed. Keywords are always
+        # interned under the hash computed by this process.
+        kw_hash = hash_kw(name, ns)
+        found = _INTERN.val_at(kw_hash)
+        if found is not None:
             return found
         kw = Keyword(name, ns=ns)
         _INTERN = _INTERN.assoc(kw_hash, kw)
